@@ -335,3 +335,581 @@ def parse_recv(line):
         return None
     w = line.split()[1:]
     return [x for x in w if x != "-"]
+
+
+# =========================================================================================================
+# Runtime stage (support, not proof): the REAL daemon as a process (harness/proxy_mp.c: same one-TU trick, real select /
+# time / alarm, fake capture fed through a control pipe), two witness processes built from the real client library
+# (harness/proxy_mpclient.c includes src/proxy-client.c) and a raw-socket fault client replaying mutated sessions.
+# Lock-step: one frame is injected only after the daemon digested the fault burst, every witness must print it bit-exact.
+# Entry points: mp_build(verif), mp_run_schedules(verif, pu, rng, n_schedules, budget_s).
+# =========================================================================================================
+#!/usr/bin/env python3
+"""C19 multi-process runtime stage: the real proxy daemon as a process, two witness clients built on the real client
+library, and one hostile raw-socket client (non-proof support; see harness/proxy_mp.c, harness/proxy_mpclient.c).
+
+    import proxy_mp
+    exes, err = proxy_mp.build(verif)                         # {"daemon": path, "client": path} or (None, text)
+    fails = proxy_mp.run_schedules(verif, proxy_util, random.Random(seed), n_schedules=5, budget_s=25)
+    # -> [] or [(what, [detail lines])]
+
+One schedule: fresh tmp dir / device name -> daemon process -> 2 witnesses (`ready`) -> rounds of
+  [fault burst]  1..3 sessions of the raw client: valid messages of proxy_util.Enc with mutations (see gen_session)
+  [quiet phase]  every fault connection is half-closed and the daemon must drop it (observed: EOF / POLLHUP), except a
+                 `hold` connection (connected with a service, then shutdown(SHUT_RD)); then a liveness probe: a fresh
+                 connection with a valid CONNECT_REQ(services=0) must be answered by CONNECT_CNF
+  [frame]        ONE frame descriptor goes into the control pipe; EVERY witness must print the matching
+                 `frame <seq> <n> 1 <ids>` line (lock-step: no frame is in flight during a burst, so neither a queue
+                 overflow nor a channel flush can legitimately take a frame away)
+At the end SIGTERM; the daemon must exit 0 with a clean sanitizer log.  Every wait has a timeout, every child is killed in
+a finally block.  Daemon death is reported where it is detected, with the bytes of the burst that preceded it."""
+import os, random, select, shutil, signal, socket, struct, subprocess, sys, tempfile, time
+
+HERE = os.path.dirname(os.path.abspath(__file__))
+_SIB = os.path.join(os.path.dirname(HERE), "harness")
+SRCDIR = _SIB if os.path.exists(os.path.join(_SIB, "proxy_mp.c")) else HERE
+SOURCES = ("proxy_mp.c", "proxy_mpclient.c")
+
+T_READY, T_PROBE, T_FRAME, T_CLOSED, T_EXIT = 20.0, 15.0, 15.0, 10.0, 15.0     # generous: a loaded machine must not fail
+BAD_LOG = ("ERROR: AddressSanitizer", "runtime error", "Assertion", "LeakSanitizer", "AddressSanitizer:", "double free")
+TTX_B = 0x3                                                                      # VBI_SLICED_TELETEXT_B (witness service)
+
+
+# ------------------------------------------------------------------------------------------------------------
+# build
+# ------------------------------------------------------------------------------------------------------------
+def build(verif, srcdir=None):
+    """both executables with the framework's sanitizer flags against the sanitizer libzvbi -> ({daemon, client}, "") or
+    (None, error text); cached under verif.CACHE by a hash of the repo sources and the two harness sources"""
+    srcdir = srcdir or SRCDIR
+    srcs = [os.path.join(srcdir, f) for f in SOURCES]
+    flags = verif.SAN_FLAGS
+    key = verif._hash_files(verif.repo_sources() + srcs, " ".join(flags) + "proxy_mp-v1")
+    d = os.path.join(verif.CACHE, "build", "h-proxy_mp-" + key)
+    exes = {"daemon": os.path.join(d, "proxy_mp"), "client": os.path.join(d, "proxy_mpclient")}
+    if all(os.path.exists(p) for p in exes.values()):
+        os.utime(d)
+        return exes, ""
+    lib, err = verif.build_lib(flags, "san")
+    if lib is None:
+        return None, "library build failed:\n" + err
+    tmp = d + ".tmp%d" % os.getpid()
+    shutil.rmtree(tmp, ignore_errors=True)
+    os.makedirs(tmp)
+    R = verif.REPO
+    inc = ["-I" + R, "-I" + os.path.join(R, "src"), "-I" + os.path.join(R, "daemon"), "-I" + srcdir]
+    procs = []
+    for f in SOURCES:                        # the two compile in parallel
+        cmd = ["gcc"] + verif.BASE_CFLAGS + flags + inc + [os.path.join(srcdir, f), "-o", os.path.join(tmp, f[:-2]), lib,
+                                                            "-lm", "-lpthread"]
+        procs.append((f, subprocess.Popen(cmd, stdout=subprocess.PIPE, stderr=subprocess.STDOUT)))
+    errs = []
+    for f, p in procs:
+        out, _ = p.communicate()
+        if p.returncode != 0:
+            errs.append(f + ":\n" + out.decode("utf-8", "replace")[-4000:])
+    if errs:
+        shutil.rmtree(tmp, ignore_errors=True)
+        return None, "\n".join(errs)
+    try:
+        os.rename(tmp, d)
+    except OSError:                          # a parallel build won
+        shutil.rmtree(tmp, ignore_errors=True)
+    return exes, ""
+
+
+# ------------------------------------------------------------------------------------------------------------
+# small helpers
+# ------------------------------------------------------------------------------------------------------------
+class Lines:
+    """line reader with timeouts on a child's stdout pipe"""
+    def __init__(self, f):
+        self.fd = f.fileno()
+        os.set_blocking(self.fd, False)
+        self.buf = b""
+        self.eof = False
+
+    def get(self, timeout):
+        """next line (str) or None after `timeout` seconds / at end-of-file"""
+        end = time.monotonic() + timeout
+        while True:
+            i = self.buf.find(b"\n")
+            if i >= 0:
+                line, self.buf = self.buf[:i], self.buf[i + 1:]
+                return line.decode("utf-8", "replace")
+            left = end - time.monotonic()
+            if self.eof or left <= 0:
+                return None
+            r, _, _ = select.select([self.fd], [], [], left)
+            if r:
+                try:
+                    d = os.read(self.fd, 65536)
+                except BlockingIOError:
+                    continue
+                if not d:
+                    self.eof = True
+                self.buf += d
+
+
+def _connect(path, timeout=T_PROBE):
+    s = socket.socket(socket.AF_UNIX, socket.SOCK_STREAM)
+    s.settimeout(timeout)
+    s.connect(path)
+    return s
+
+
+def _recv_msg(s, timeout):
+    """one complete daemon message (type, bytes) or None"""
+    end = time.monotonic() + timeout
+    buf = b""
+    need = 8
+    try:
+        while len(buf) < need:
+            left = end - time.monotonic()
+            if left <= 0:
+                return None
+            s.settimeout(left)
+            d = s.recv(need - len(buf))
+            if not d:
+                return None
+            buf += d
+            if len(buf) == 8 and need == 8:
+                need = struct.unpack(">I", buf[:4])[0]
+                if need < 8 or need > (1 << 20):
+                    return None
+        return struct.unpack(">I", buf[4:8])[0], buf
+    except OSError:
+        return None
+
+
+def _wait_closed(s, shut_rd, timeout=T_CLOSED):
+    """True when the daemon has closed its end (EOF, reset or POLLHUP); incoming data is discarded"""
+    p = select.poll()
+    p.register(s.fileno(), 0 if shut_rd else select.POLLIN)   # after SHUT_RD POLLIN is permanently set: watch HUP only
+    end = time.monotonic() + timeout
+    s.setblocking(False)
+    while True:
+        left = end - time.monotonic()
+        if left <= 0:
+            return False
+        for _, ev in p.poll(left * 1000):
+            if ev & (select.POLLHUP | select.POLLERR | select.POLLNVAL):
+                return True
+            if ev & select.POLLIN:
+                try:
+                    if not s.recv(65536):
+                        return True
+                except BlockingIOError:
+                    pass
+                except OSError:
+                    return True
+
+
+# ------------------------------------------------------------------------------------------------------------
+# fault client: sessions are lists of ops  ("send", bytes) ("sleep", s) ("shut_rd",) ("cnf",) ("hold",) ("close",)
+# ------------------------------------------------------------------------------------------------------------
+def _rand_services(rng):
+    return rng.choice([0, 1, 2, 3, 3, 0x400, 0x8, 0x3 | 0x400, 0x20000000, 0x40000000, 0xFFFFFFFF, rng.getrandbits(32),
+                       rng.getrandbits(32) & 0x1FFFFFFF])
+
+
+def _valid_msg(rng, E, L, kind=None):
+    """one well-formed client message with random (also out-of-range) field values"""
+    kind = kind or rng.choice(["service", "service", "token", "token", "notify", "notify", "ioctl", "reclaim", "suspend",
+                               "pid", "connect"])
+    if kind == "connect":
+        return E.connect(services=_rand_services(rng), strict=rng.choice([-1, 0, 1, 2, rng.randint(-128, 127)]),
+                         scanning=rng.choice([0, 0, 625, 525, rng.getrandbits(32)]), buffer_count=rng.choice([0, 1, 5, 255]),
+                         flags=rng.choice([0, 0, 1, 2, 3, rng.getrandbits(32)]))
+    if kind == "service":
+        return E.service(_rand_services(rng), strict=rng.choice([-1, 0, 1, 2, rng.randint(-128, 127)]),
+                         reset=rng.choice([0, 1, 255]), commit=rng.choice([0, 1]))
+    if kind == "token":
+        return E.token(rng.choice([L["prio_BACKGROUND"], L["prio_INTERACTIVE"], L["prio_RECORD"], 0, 7, rng.getrandbits(32)]),
+                       valid=rng.choice([0, 1, 1, 255]), sub_prio=rng.getrandbits(8),
+                       min_dur=rng.choice([0, 1, 2, -1, 1 << 40, -(1 << 62)]), exp_dur=rng.choice([0, 1, -1, 1 << 50]))
+    if kind == "notify":
+        return E.notify(rng.choice([rng.getrandbits(5), rng.getrandbits(32), L["f_TOKEN"], L["f_FLUSH"], L["f_RELEASE"],
+                                    L["f_NORM"], L["f_TOKEN"] | L["f_FLUSH"]]), scanning=rng.choice([0, 525, 625, rng.getrandbits(32)]))
+    if kind == "ioctl":
+        if L["ioctls"] and rng.random() < 0.6:
+            _, req, size, _ = rng.choice(L["ioctls"])
+            return E.ioctl(req, max(1, size if rng.random() < 0.7 else rng.randint(1, 64)), fill=rng.getrandbits(8))
+        return E.ioctl(rng.getrandbits(32), rng.randint(1, 200), fill=rng.getrandbits(8))
+    if kind == "reclaim":
+        return E.reclaim_cnf()
+    if kind == "suspend":
+        return E.suspend()
+    if kind == "pid":
+        return E.pid_req()
+    return E.close()
+
+
+def _bad_len(rng, msg, L):
+    n = len(msg)
+    v = rng.choice([0, 1, 7, 8, L["msg"] + 1, L["msg"], 1 << 31, (1 << 32) - 1, n - 1, n + 1, rng.getrandbits(32), rng.randint(0, 70000)])
+    return struct.pack(">I", v & 0xFFFFFFFF) + msg[4:]
+
+
+def _bad_type(rng, msg, L):
+    v = rng.choice([rng.randint(0, 40), rng.getrandbits(32), (1 << 32) - 1, 1 << 31, L["t_SLICED_IND"], L["t_CONNECT_CNF"], L["t_COUNT"]])
+    return msg[:4] + struct.pack(">I", v & 0xFFFFFFFF) + msg[8:]
+
+
+def _split(rng, msg):
+    """a message in 2..3 sends with small sleeps"""
+    k = rng.choice([2, 3])
+    cuts = sorted(rng.randint(1, max(1, len(msg) - 1)) for _ in range(k - 1))
+    ops, a = [], 0
+    for c in cuts + [len(msg)]:
+        if c > a:
+            ops += [("send", msg[a:c]), ("sleep", rng.choice([0.0005, 0.002, 0.005]))]
+            a = c
+    return ops
+
+
+def gen_session(rng, E, L):
+    """-> list of ops of one fault connection"""
+    shape = rng.choice(["hold", "hold", "trunc", "trunc", "badlen", "badlen", "badtype", "garbage", "split", "state", "strict", "strict",
+                        "closeany", "shutrd_write", "oversize", "magic", "valid"])
+    con = E.connect(services=rng.choice([0, 3, 1, 0x400, 0x403]), strict=rng.choice([-1, 0, 1, 2]))
+    follow = [_valid_msg(rng, E, L) for _ in range(rng.randint(0, 4))]
+    if shape == "hold":          # C19-d shape: connected WITH a service, receive side shut down, alive across the next frame
+        return [("send", E.connect(services=rng.choice([3, 1, 2, 0x403, 0x400]), strict=rng.choice([0, 1]))), ("cnf",),
+                ("shut_rd",), ("hold",)]
+    if shape == "trunc":         # a prefix of a session, then silence, then disconnect
+        data = b"".join([con] + follow)
+        cut = rng.randint(0, len(data) - 1)
+        return [("send", data[:cut]), ("sleep", rng.choice([0, 0.001, 0.01])), ("close",)]
+    if shape == "badlen":
+        msgs = [con] + follow
+        k = rng.randrange(len(msgs))
+        msgs[k] = _bad_len(rng, msgs[k], L)
+        return [("send", m) for m in msgs] + [("close",)]
+    if shape == "badtype":
+        msgs = [con] + follow + [_valid_msg(rng, E, L)]
+        k = rng.randrange(len(msgs))
+        msgs[k] = _bad_type(rng, msgs[k], L)
+        return [("send", m) for m in msgs] + [("close",)]
+    if shape == "garbage":
+        pre = [("send", con)] if rng.random() < 0.5 else []
+        return pre + [("send", bytes(rng.getrandbits(8) for _ in range(rng.choice([1, 7, 8, 9, 64, 700, 5000]))))] + [("close",)]
+    if shape == "split":
+        ops = []
+        for m in [con] + follow:
+            ops += _split(rng, m) if rng.random() < 0.7 else [("send", m)]
+        return ops + [("close",)]
+    if shape == "state":         # messages which are illegal before CONNECT_REQ / a second CONNECT_REQ afterwards
+        if rng.random() < 0.5:
+            return [("send", _valid_msg(rng, E, L, rng.choice(["service", "token", "notify", "ioctl", "reclaim", "suspend"]))),
+                    ("send", con), ("close",)]
+        return [("send", con), ("send", _valid_msg(rng, E, L, "connect")), ("send", E.pid_req()), ("close",)]
+    if shape == "strict":        # the whole int8 range, on both paths
+        st = rng.randint(-128, 127)
+        return [("send", E.connect(services=rng.choice([0, 3, 0x403]), strict=rng.choice([0, st]))),
+                ("send", E.service(rng.choice([1, 3, 0x400, 0x403]), strict=st, reset=rng.choice([0, 1]))),
+                ("send", E.service(rng.choice([1, 3, 0x400]), strict=rng.randint(-128, 127))), ("close",)]
+    if shape == "closeany":      # disconnect right after any message, without reading a reply
+        msgs = [con] + follow
+        return [("send", m) for m in msgs[:rng.randint(0, len(msgs))]] + [("close",)]
+    if shape == "shutrd_write":  # receive side shut down, then keep writing: the daemon's replies fail
+        return [("send", con), ("shut_rd",)] + [("send", m) for m in follow + [_valid_msg(rng, E, L, "service")]] + [("close",)]
+    if shape == "oversize":      # length beyond sizeof(VBIPROXY_MSG) with the bytes really sent
+        n = rng.choice([L["msg"] + 1, L["msg"] + 9, 20000, 66000])
+        body = bytes(rng.getrandbits(8) for _ in range(40)) + bytes([rng.getrandbits(8)]) * (n - 48)
+        t = rng.choice([L["t_CHN_IOCTL_REQ"], L["t_CONNECT_REQ"], L["t_SERVICE_REQ"]])
+        return ([("send", con)] if rng.random() < 0.6 else []) + [("send", struct.pack(">II", n, t) + body), ("close",)]
+    if shape == "magic":         # wrong magic / endian mismatch / incompatible version
+        m = rng.choice([E.connect(magic=b"LIBZVBI VBIPROXX"), E.connect(endian=L["endian_mismatch"]), E.connect(compat=0x7FFFFFFF),
+                        E.connect(endian=0x12345678), E.pid_req(endian=L["endian_mismatch"]), E.pid_req(magic=b"x" * 16)])
+        return [("send", m)] + [("send", x) for x in follow] + [("close",)]
+    return [("send", con)] + [("send", m) for m in follow] + [("close",)]     # "valid": random field values only
+
+
+def _hex(b):
+    """complete and replayable: hex, a long constant tail as `+<count>*<byte>`"""
+    k = len(b)
+    while k > 0 and b[k - 1] == b[-1]:
+        k -= 1
+    return b.hex() if len(b) - k < 64 else "%s+%d*%02x" % (b[:k].hex(), len(b) - k, b[-1])
+
+
+def play(path, ops, tag, log):
+    """run one fault session -> (socket, shut_rd, hold) ; the socket is still open (the caller finishes it)"""
+    s = _connect(path)
+    s.settimeout(5.0)
+    shut_rd = hold = dead = False
+    log.append("%s connect" % tag)
+    for op in ops:
+        if op[0] == "send" and not dead:
+            log.append("%s send %s" % (tag, _hex(op[1])))
+            try:
+                s.sendall(op[1])
+            except OSError as e:           # the daemon has already dropped us
+                log.append("%s send failed: %s" % (tag, e.__class__.__name__))
+                dead = True
+        elif op[0] == "sleep":
+            time.sleep(op[1])
+        elif op[0] == "shut_rd" and not dead:
+            log.append("%s shutdown(SHUT_RD)" % tag)
+            try:
+                s.shutdown(socket.SHUT_RD)
+                shut_rd = True
+            except OSError:
+                dead = True
+        elif op[0] == "cnf" and not dead:
+            m = _recv_msg(s, T_PROBE)
+            log.append("%s reply type %s" % (tag, m[0] if m else None))
+            if m is None:
+                dead = True
+        elif op[0] == "hold":
+            hold = not dead
+    return s, shut_rd, hold
+
+
+def finish(s, shut_rd, tag, log):
+    """half-close; the daemon must drop the connection -> True"""
+    try:
+        s.shutdown(socket.SHUT_WR)
+    except OSError:
+        pass
+    ok = _wait_closed(s, shut_rd)
+    log.append("%s closed by daemon: %s" % (tag, ok))
+    s.close()
+    return ok
+
+
+# ------------------------------------------------------------------------------------------------------------
+# one schedule
+# ------------------------------------------------------------------------------------------------------------
+def _tail(path, n=4000):
+    try:
+        return open(path, "rb").read()[-n:].decode("utf-8", "replace")
+    except OSError:
+        return ""
+
+
+def _san_lines(text, limit=25):
+    keep = [l for l in text.split("\n") if l.strip()]
+    return keep[:limit]
+
+
+def run_one(verif, pu, rng, exes, sched_id, deadline, rounds=6):
+    """-> list of (what, detail lines)"""
+    L = pu.probe()
+    E = pu.Enc(L)
+    fails = []
+    tmp = tempfile.mkdtemp(prefix="zvbi_c19mp_", dir="/tmp")
+    dev = os.path.join(tmp, "vbi0")
+    sock = "/tmp/vbiproxy" + dev.replace("/", "-")          # vbi_proxy_msg_get_socket_name (checked against `listening`)
+    env = dict(os.environ)
+    env.update(verif.SAN_ENV)
+    procs, held, ctl_w = [], [], -1
+    dlog_path = os.path.join(tmp, "daemon.err")
+    burst, prev = [], []                                     # log of the current and of the previous round
+    hdr = ["schedule %s device %s" % (sched_id, dev)]
+
+    def daemon_dead(where, grace=3.0):
+        """daemon gone -> failure recorded, True.  Called when something already went wrong (grace: a daemon that is
+        writing its sanitizer report has not exited yet) and, with grace 0, as a routine check"""
+        try:
+            rc = daemon.wait(grace) if grace else daemon.poll()
+        except subprocess.TimeoutExpired:
+            rc = None
+        if rc is None:
+            return False
+        fails.append(("daemon died (exit status %s) %s" % (rc, where), hdr + ["-- preceding rounds (fault bursts, frames):"] + prev + burst +
+                      ["-- daemon stderr:"] + _san_lines(_tail(dlog_path))))
+        return True
+
+    def probe(where):
+        """liveness: a fresh connection with a valid CONNECT_REQ(services=0) must get CONNECT_CNF -> True"""
+        try:
+            ps = _connect(sock)
+            ps.sendall(E.connect(services=0))
+            m = _recv_msg(ps, T_PROBE)
+            ps.close()
+        except OSError as e:
+            m = ("error: %s" % e, b"")
+        if m and m[0] == L["t_CONNECT_CNF"]:
+            return True
+        if not daemon_dead("(liveness probe %s)" % where):
+            fails.append(("daemon stopped serving: a valid CONNECT_REQ %s got %r" % (where, m and m[0]), hdr + prev + burst))
+        return False
+
+    try:
+        r, ctl_w = os.pipe()
+        dlog = open(dlog_path, "wb")
+        daemon = subprocess.Popen([exes["daemon"], dev, str(r)], pass_fds=[r], stdin=subprocess.DEVNULL, stdout=subprocess.PIPE,
+                                  stderr=dlog, env=env)
+        procs.append(daemon)
+        os.close(r)
+        dl = Lines(daemon.stdout)
+        line = dl.get(T_READY)
+        if line != "listening " + sock:
+            if not daemon_dead("at start"):
+                fails.append(("daemon did not start listening", hdr + [repr(line)] + _san_lines(_tail(dlog_path))))
+            return fails
+        wit = []
+        for i in range(2):
+            wlog = open(os.path.join(tmp, "w%d.err" % i), "wb")
+            p = subprocess.Popen([exes["client"], dev, "0"] + (["token"] if i == 1 else []), stdin=subprocess.PIPE,
+                                 stdout=subprocess.PIPE, stderr=wlog, env=env)
+            procs.append(p)
+            wit.append((p, Lines(p.stdout)))
+        for i, (p, wl) in enumerate(wit):
+            while True:
+                line = wl.get(T_READY)
+                if line is None or line == "ready" or line.startswith("error"):
+                    break
+            if line != "ready":
+                if not daemon_dead("while the witnesses connected"):
+                    fails.append(("witness %d did not get ready" % i, hdr + [repr(line)] + _san_lines(_tail(os.path.join(tmp, "w%d.err" % i)))))
+                return fails
+
+        seq = 0
+        for rnd in range(rounds):
+            if time.monotonic() > deadline:
+                break
+            # ---- fault burst
+            prev, burst = burst, ["round %d" % rnd]
+            open_conns = []
+            for k in range(rng.randint(1, 3)):
+                ops = gen_session(rng, E, L)
+                tag = "c%d" % k
+                try:
+                    s, shut_rd, hold = play(sock, ops, tag, burst)
+                except OSError as e:
+                    burst.append("%s connect failed: %s" % (tag, e))
+                    if not daemon_dead("during a fault burst"):
+                        fails.append(("daemon refuses connections", hdr + prev + burst))
+                    return fails
+                (held if hold and not held else open_conns).append((s, shut_rd, tag))
+            # ---- quiet phase: every fault connection (but a held one) must be dropped by the daemon
+            for s, shut_rd, tag in open_conns:
+                if not finish(s, shut_rd, tag, burst):
+                    if daemon_dead("after a fault burst"):
+                        return fails
+                    fails.append(("daemon did not release a connection whose client went away", hdr + prev + burst))
+                    return fails
+            if daemon_dead("after a fault burst", 0) or not probe("after the fault burst"):
+                return fails
+            # ---- a well-behaved token user, while no frame is in flight
+            if rng.random() < 0.4:
+                p, wl = wit[1]
+                try:
+                    p.stdin.write(b"token\n")
+                    p.stdin.flush()
+                except OSError:
+                    pass
+                line = wl.get(T_FRAME)
+                w = (line or "").split()
+                if len(w) != 3 or w[0] != "token" or w[1] not in ("0", "1") or w[2] != "0":
+                    if not daemon_dead("during a token request of a witness"):
+                        fails.append(("witness 1: channel token request / release failed: %r" % line, hdr + prev + burst))
+                    return fails
+            # ---- one frame, every witness must receive it complete and bit-exact
+            seq += 1
+            ids = [rng.choice([1, 2, 3, 3, 3, 0x400, 0x8, 0x403, 0x40000000, 1 << rng.randrange(31)]) for _ in range(rng.choice([0, 1, 5, 17, 31, rng.randint(0, 31)]))]
+            burst.append("frame %d ids %s%s" % (seq, ",".join("%x" % x for x in ids) or "-", " (fault connection %s still open)" % held[0][2] if held else ""))
+            os.write(ctl_w, struct.pack("<Ii31I", seq, len(ids), *(ids + [0] * (31 - len(ids)))))
+            exp_l = [(x, i) for i, x in enumerate(ids) if x & TTX_B]
+            exp = "frame %d %d 1 %s" % (seq, len(exp_l), ",".join("%x@%d" % e for e in exp_l) or "-")
+            for i, (p, wl) in enumerate(wit):
+                line = wl.get(T_FRAME)
+                if line != exp:
+                    if not daemon_dead("after frame %d was injected" % seq):
+                        fails.append(("witness %d did not receive frame %d complete and correct" % (i, seq),
+                                      hdr + ["expected: " + exp, "got:      " + repr(line), "-- preceding rounds:"] + prev + burst))
+                    return fails
+            for s, shut_rd, tag in held:                     # the frame could not be sent to it: the daemon drops it
+                if not finish(s, shut_rd, tag, burst):
+                    if not daemon_dead("after frame %d" % seq):
+                        fails.append(("daemon did not release a connection whose client went away", hdr + prev + burst))
+                    return fails
+            held = []
+            if not probe("after frame %d" % seq):            # also attributes a crash to the frame / burst that caused it
+                return fails
+
+        # ---- orderly end: witnesses quit, daemon SIGTERM -> exit 0, clean log
+        for i, (p, wl) in enumerate(wit):
+            if p.poll() is not None:
+                fails.append(("witness %d exited on its own (status %s)" % (i, p.returncode), hdr + prev + burst + _san_lines(_tail(os.path.join(tmp, "w%d.err" % i)))))
+            try:
+                p.stdin.write(b"quit\n")
+                p.stdin.flush()
+                p.stdin.close()
+            except OSError:
+                pass
+        for p, wl in wit:
+            try:
+                p.wait(T_EXIT)
+            except subprocess.TimeoutExpired:
+                p.kill()
+        end = time.monotonic() + T_EXIT
+        while daemon.poll() is None and time.monotonic() < end:
+            daemon.send_signal(signal.SIGTERM)               # repeated: a signal just before select() blocks is lost
+            try:
+                daemon.wait(0.1)
+            except subprocess.TimeoutExpired:
+                pass
+        if daemon.poll() is None:
+            fails.append(("daemon did not terminate on SIGTERM", hdr + prev + burst))
+        else:
+            log = _tail(dlog_path, 20000)
+            if daemon.returncode != 0 or any(b in log for b in BAD_LOG):
+                fails.append(("daemon exit status %s / sanitizer log at shutdown" % daemon.returncode,
+                              hdr + ["-- last rounds:"] + prev + burst + ["-- daemon stderr:"] + _san_lines(log)))
+        return fails
+    finally:
+        for s, _, _ in held:
+            try:
+                s.close()
+            except OSError:
+                pass
+        for p in procs:
+            if p.poll() is None:
+                p.kill()
+        for p in procs:
+            try:
+                p.wait(5)
+            except (subprocess.TimeoutExpired, OSError):
+                pass
+            for f in (p.stdin, p.stdout):
+                try:
+                    if f:
+                        f.close()
+                except OSError:
+                    pass
+        if ctl_w >= 0:
+            os.close(ctl_w)
+        try:
+            os.unlink(sock)                                  # left behind only when the daemon died
+        except OSError:
+            pass
+        shutil.rmtree(tmp, ignore_errors=True)
+
+
+def run_schedules(verif, pu, rng, n_schedules, budget_s, exes=None, rounds=6):
+    """-> list of (what, detail_lines); [] = pass"""
+    t0 = time.monotonic()
+    if exes is None:
+        exes, err = build(verif)
+        if exes is None:
+            return [("proxy_mp: build failed", err.split("\n")[-40:])]
+    fails = []
+    for k in range(n_schedules):
+        if time.monotonic() - t0 > budget_s:
+            break
+        try:
+            fails += run_one(verif, pu, rng, exes, k, t0 + budget_s, rounds)
+        except Exception as e:                               # the stage itself must not take the check down
+            import traceback
+            fails.append(("proxy_mp: internal error %s" % e.__class__.__name__, traceback.format_exc().split("\n")))
+        if fails:
+            break
+    return fails
+
+
+mp_build = build
+mp_run_schedules = run_schedules
